@@ -330,4 +330,24 @@ def filter_is_only_a_filter(ctx, rid):
                 r.violation(rid, "scan_diff extracts text with a pattern that contains the --filter expression",
                             "Regex::%s is applied with a pattern derived from the `file_filter` parameter: what is captured as the file "
                             "name depends on how the user's expression backtracks" % last, [c.loc(), tainted[0].loc()])
-    r.floor(rid, n, 2, "capturing regex applications in scan_diff")
+    # a pattern handed to a private helper that captures with it (`post_image_lines(&lines_pattern, &line)`)
+    CAP = ("captures", "captures_iter", "find", "replace", "replace_all", "captures_read")
+    regs0 = {}
+    for c in sd.calls():
+        if c.name.endswith("Regex::new") and c.args and c.args[0][0] != "k":
+            regs0[c] = bool(set(fi) & sd.derived_from(c.args[0][1][0])["args"])
+    for c in sd.calls():
+        h = p.fns.get(c.resolved or "")
+        if h is None or h.crate != sd.crate or h.kind == "Closure":
+            continue
+        caps = [d for d in h.calls() if "Regex" in d.name and d.name.rsplit("::", 1)[-1] in CAP]
+        if not caps:
+            continue
+        n += len(caps)
+        tainted = [rc for a in c.args if a[0] != "k" for rc, t in regs0.items() if t and rc in sd.derived_from(a[1][0])["calls"]]
+        r.instance(rid, "scan_diff → %s: Regex::%s" % (short(h.id), caps[0].name.rsplit("::", 1)[-1]), "violation" if tainted else "ok",
+                   c.loc(), "pattern built from the filter option" if tainted else "pattern built from constants / skip_prefix")
+        if tainted:
+            r.violation(rid, "scan_diff extracts text with a pattern that contains the --filter expression",
+                        "%s captures with a pattern derived from the `file_filter` parameter" % short(h.id), [c.loc(), tainted[0].loc()])
+    r.floor(rid, n, 2, "capturing regex applications in scan_diff and its helpers")
